@@ -8,10 +8,13 @@
 (* exported with the model's texts for replay on the real compiler/parser.  *)
 EXTENDS XjsPrinter, XjsLexer, XjsPrograms, Json
 
-CONSTANTS Depth, BinDepth, Contexts, DeepContexts, Export
+CONSTANTS Depth, BinDepth, Contexts, DeepContexts, Export, StmtDepth
 
 VARIABLES t, d
 vars == <<t, d>>
+\* t is an expression (d counts expression wraps) or, second enumerator, a STATEMENT (d counts
+\* statement wraps): programmatic statement trees - every parent/child pair of statement kinds and
+\* position up to StmtDepth, with brace-less bodies and branches
 
 P == Id("p")
 Tgt == {B, Node("mem", "", <<B, P>>)}
@@ -39,10 +42,32 @@ RECURSIVE BinOnly(_)
 BinOnly(x) == x = A \/ x = B \/ (x.k = "bin" /\ x.op \in RepOps /\ BinOnly(x.c[1]) /\ BinOnly(x.c[2]))
 BinWraps(x) == {Bin(op, x, B) : op \in RepOps} \cup {Bin(op, B, x) : op \in RepOps}
 
+IsStmt(x) == IsStmtKind(x.k)
+BodyOK(x) == x.k \notin {"let", "fdecl"}       \* a declaration is not a statement body in the subset
+StmtAtoms == {E(A), E(Node("un", "-", <<A>>)), E(Node("call", "", <<Grp(B)>>)), Let("x", Num("1")), Ret(Nil), Ret(A),
+              If(A, E(B), Nil), Blk(<<>>), Node("fdecl", "", <<Id("g"), PList(<<>>), Blk(<<>>)>>)}
+StmtWraps(x) ==
+  (IF BodyOK(x)
+   THEN {If(A, x, Nil), If(A, x, E(Id("d"))), If(A, E(Id("c")), x), If(A, x, x), If(A, x, Blk(<<E(Id("d"))>>)),
+         Node("while", "", <<A, x>>), Node("for", "", <<Nil, Nil, Nil, x>>),
+         Node("for", "", <<Node("lete", "", <<Id("i"), Num("0")>>), Bin("<", Id("i"), Num("2")), Node("post", "++", <<Id("i")>>), x>>)}
+   ELSE {})
+  \cup {Blk(<<x>>), Blk(<<E(A), x>>), Blk(<<x, E(Node("un", "-", <<B>>))>>),
+        Node("fdecl", "", <<Id("h"), PList(<<Id("p")>>), Blk(<<x>>)>>),
+        E(Node("call", "", <<Id("f"), Fn(Nil, <<>>, <<x>>)>>)), Let("k", Fn(Nil, <<>>, <<x, E(A)>>))}
+\* a statement tree as a program: function body when it returns, else top level (and after `a`)
+RECURSIVE ReturnsOutside(_)
+ReturnsOutside(s) ==
+  \/ s.k = "ret"
+  \/ s.k \in {"if", "while", "for", "blk"} /\ \E j \in 1..Len(s.c) : ~IsNilNode(s.c[j]) /\ IsStmtKind(s.c[j].k) /\ ReturnsOutside(s.c[j])
+StmtProgs(x) == IF ReturnsOutside(x) THEN {Prog(<<Node("fdecl", "", <<Id("w"), PList(<<>>), Blk(<<x>>)>>)>>)}
+                ELSE {Prog(<<x>>), Prog(<<E(A), x, E(B)>>)}
+
 Atoms3 == {A, Num("1"), Node("str", "s", <<>>), Fn(Nil, <<>>, <<>>), Node("obj", "", <<>>)}
-Init == t \in Atoms3 /\ d = 0
-Next == \/ d < Depth /\ t' \in Wraps3(t) /\ d' = d + 1
-        \/ d >= Depth /\ d < BinDepth /\ BinOnly(t) /\ t' \in BinWraps(t) /\ d' = d + 1
+Init == (t \in Atoms3 /\ d = 0) \/ (StmtDepth > 0 /\ t \in StmtAtoms /\ d = 0)
+Next == \/ ~IsStmt(t) /\ d < Depth /\ t' \in Wraps3(t) /\ d' = d + 1
+        \/ IsStmt(t) /\ d < StmtDepth /\ t' \in StmtWraps(t) /\ d' = d + 1
+        \/ ~IsStmt(t) /\ d >= Depth /\ d < BinDepth /\ BinOnly(t) /\ t' \in BinWraps(t) /\ d' = d + 1
 Spec == Init /\ [][Next]_vars
 
 Ctx3(c, e) ==
@@ -69,7 +94,7 @@ ReadBack(text) ==
   IN [tree |-> r.tree, nerr |-> Len(r.errs)]
 
 Check(p) ==
-  LET want == Strip(p)
+  LET want == Strip(ProtectElse(p))
       outs == [c \in 1..Len(Cfgs) |-> PrintTree(p, Cfgs[c])]
       bad  == {c \in 1..Len(Cfgs) :
                  LET rb == ReadBack(outs[c])
@@ -77,5 +102,6 @@ Check(p) ==
   IN /\ (bad = {} \/ PrintT(<<"MODELFAIL", ToJson([tree |-> p, cfgs |-> bad, outs |-> outs])>>))
      /\ (Export => PrintT(ToJson([tree |-> p, outs |-> [c \in 1..Len(Cfgs) |-> [cfg |-> CfgNames[c], text |-> outs[c]]]])))
 
-Inv == \A c \in (IF d < Depth \/ Depth < 2 THEN Contexts ELSE DeepContexts) : Check(Ctx3(c, t))
+Inv == IF IsStmt(t) THEN \A p \in StmtProgs(t) : Check(p)
+       ELSE \A c \in (IF d < Depth \/ Depth < 2 THEN Contexts ELSE DeepContexts) : Check(Ctx3(c, t))
 =============================================================================
